@@ -257,13 +257,22 @@ def snapshot(put, hosts, cpol):
     q = None
     if put.target is not None:
         q = _Q(put.target)
+    md = getattr(put.policy, '_cluster_metadata', None)
+
+    def target_state():
+        # the metadata the policy itself consults (a host can leave it before the policy hears on_remove)
+        t = md.get_host(put.target) if (md is not None and put.target is not None) else None
+        return (t is not None, bool(t.is_up) if t is not None else False)
+    up0 = target_state()
     plan = [str(h.endpoint.address) for h in put.policy.make_query_plan(None, q)]
     dist = dict((str(h.endpoint.address), put.policy.distance(h)) for h in hosts)
     info = dict((str(h.endpoint.address), hinfo(h)) for h in hosts)
-    tgt = [h for h in hosts if put.target is not None and h.broadcast_rpc_address == put.target]
-    tgt_up = bool(tgt) and bool(tgt[0].is_up)
+    up1 = target_state()
+    tgt_up = up1 == (True, True)
     if len(put.log) != k0 or f0 or put.inflight:
         return None
+    if up0 != up1:
+        return None              # the target's state moved while the plan was built (set_up follows policy.on_add/on_up)
     return k0, plan, dist, info, tgt_up
 
 
